@@ -133,8 +133,9 @@ class Catalog:
          mA, mB   merged particle counts;   jA, jB  junk records before the merged range; away  bool
     """
 
-    def __init__(self, slabs, box=32.0, velz=3200.0, ppd=64.0, slab_ids=None, haloval_rows=None):
+    def __init__(self, slabs, box=32.0, velz=3200.0, ppd=64.0, slab_ids=None, haloval_rows=None, trailing=True):
         self.slabs = slabs
+        self.trailing = trailing   # False: no unindexed record after the last halo (a slab without particles has an EMPTY file)
         self.box, self.velz, self.ppd = box, velz, ppd
         self.slab_ids = list(slab_ids) if slab_ids is not None else list(range(len(slabs)))
         self.header = dict(BoxSize=box, VelZSpace_to_kms=velz, ppd=ppd, SimName=SIM, Redshift=0.5,
@@ -181,7 +182,7 @@ class Catalog:
                 m['N'], m['N_total'] = N, int(cl['N_total'][hi])
                 mod.append(m)
             # trailing unindexed records
-            for X in 'AB':
+            for X in ('AB' if self.trailing else ''):
                 part[X]['rv'].append(rv_record(ser['gap'])); part[X]['pid'].append(pid_record(ser['gap'])); ser['gap'] += 1
                 mpart[X]['rv'].append(rv_record(ser['junk'])); mpart[X]['pid'].append(pid_record(ser['junk'])); ser['junk'] += 1
             self.model.append(mod)
